@@ -416,7 +416,10 @@ def gen_row(rnd, fields, fmt, p_bad=0.2, p_ragged=0.1):
         if rnd.random() < 0.5 and row:
             row = row[:rnd.randrange(len(row))]
         else:
-            row = row + ["extra"] * rnd.randint(1, 2)
+            # surplus items of every kind: text, empty (what spreadsheets pad rows with), blank, a copy of a good cell
+            k = rnd.random()
+            surplus = "extra" if k < 0.4 else ("" if k < 0.75 else (" " if k < 0.85 else row[-1] if row else "x"))
+            row = row + [surplus] * rnd.randint(1, 2)
     return row
 
 
